@@ -1,0 +1,63 @@
+//! Verification hooks, compiled only with `--cfg rpgp_verif`.
+//!
+//! Nothing in here changes the behaviour of the library unless a hook is explicitly used by an
+//! external verification harness.
+
+use std::sync::{
+    atomic::{AtomicU64, Ordering},
+    Arc, Mutex,
+};
+
+use digest::DynDigest;
+
+use crate::util::NormalizingHasher;
+
+/// `u64::MAX` means: no override.
+static NOW_OVERRIDE: AtomicU64 = AtomicU64::new(u64::MAX);
+
+/// Pin the value returned by `Timestamp::now()` (seconds since the epoch); `None` unpins.
+pub fn set_now(secs: Option<u32>) {
+    NOW_OVERRIDE.store(secs.map(u64::from).unwrap_or(u64::MAX), Ordering::SeqCst);
+}
+
+pub(crate) fn now_override() -> Option<u32> {
+    let v = NOW_OVERRIDE.load(Ordering::SeqCst);
+    u32::try_from(v).ok()
+}
+
+#[derive(Clone, Default)]
+struct Recorder(Arc<Mutex<Vec<u8>>>);
+
+impl DynDigest for Recorder {
+    fn update(&mut self, data: &[u8]) {
+        self.0.lock().expect("recorder").extend_from_slice(data);
+    }
+    fn finalize_into(self, _buf: &mut [u8]) -> Result<(), digest::InvalidBufferSize> {
+        Ok(())
+    }
+    fn finalize_into_reset(&mut self, _out: &mut [u8]) -> Result<(), digest::InvalidBufferSize> {
+        Ok(())
+    }
+    fn reset(&mut self) {
+        self.0.lock().expect("recorder").clear();
+    }
+    fn output_size(&self) -> usize {
+        0
+    }
+    fn box_clone(&self) -> Box<dyn DynDigest> {
+        Box::new(self.clone())
+    }
+}
+
+/// Feeds `chunks` one by one to the crate-private streaming `NormalizingHasher` and returns the
+/// byte string that reached the underlying digest.
+pub fn normalizing_hasher_bytes(chunks: &[&[u8]], text_mode: bool) -> Vec<u8> {
+    let rec = Recorder::default();
+    let mut h = NormalizingHasher::new(Box::new(rec.clone()), text_mode);
+    for c in chunks {
+        h.hash_buf(c);
+    }
+    let _ = h.done();
+    let out = rec.0.lock().expect("recorder").clone();
+    out
+}
